@@ -694,3 +694,11 @@ Proof.
       apply oreset_deferred_mem in Hm' as [_ (k1 & ms1 & H1 & Hm1 & Hr)].
       rewrite <- Hr. apply einert_reset_both. destruct (Hd k1 ms1 H1) as [_ Hin]. by apply (Hin k).
 Qed.
+
+Print Assumptions gclock_rm.
+Print Assumptions gclock_add.
+Print Assumptions mb_step_add.
+Print Assumptions imfold_inert.
+Print Assumptions inner_up.
+Print Assumptions inner_rm.
+Print Assumptions inner_reset.
